@@ -51,6 +51,50 @@ def _to_strings(args):
     return idx, r, strs
 
 
+def one_query_dir(ctx, res, rng, k):
+    """an indexed directory: the note selector's output (swog.execute, refresh_zoq_file) compiled again"""
+    from freezegun import freeze_time
+    from zorg.service import swog
+    from zorg.service.swog._refresh_zoq_file import refresh_zoq_file
+
+    cfg = Z.write_config(ctx.tmp / "cfg.yml")
+    zdir = ctx.tmp / "q"
+    if zdir.exists():
+        shutil.rmtree(zdir)
+    zdir.mkdir(parents=True)
+    G.write_dir(zdir, G.gen_dir(rng, npages=(2, 3), sections=False))
+    Z.clear_engine_cache()
+    with freeze_time(dt.datetime(*TODAY, 12, 0)):
+        rc, _, _ = Z.zorg_main(zdir, "db", "create", config=cfg)
+        if rc != 0:
+            return None
+        url = f"sqlite:///{zdir}/.zorg/zorg.db"
+        rows = {r["zid"]: r for r in G.dump_index(zdir)}
+        for order in ("none", "alpha", "create modify", "type priority", "priority", "modify"):
+            q = f"S note W o | x | ~ | < | > | - O {order} G none"
+            out = swog.execute(zdir, url, q)
+            zoq = zdir / "zoq" / "r.zoq"
+            zoq.parent.mkdir(exist_ok=True)
+            zoq.write_text(f"# {q}\n")
+            refresh_zoq_file(zdir, url, zoq)
+            for label, text in (("swog.execute output under a header", "# results\n\n" + out + "\n"), ("refreshed .zoq page", zoq.read_text() + "\n")):
+                back = ZC.impl_compile(ctx.tmp / "b", "p.zo", text, TODAY)
+                res.evaluations += 1
+                if "exc" in back or back["errors"]:
+                    res.failures.append(C.Failure(f"{label} is not a valid page", {"query": q, "text": text[:2000], "kind": "invalid_page"}))
+                    break
+                got = sorted(n["zid"] or "" for n in back["notes"])
+                if got != sorted(rows):
+                    res.failures.append(C.Failure(f"{label}: compiled notes {got[:5]} are not the selected notes {sorted(rows)[:5]}", {"query": q, "text": text[:2000]}))
+                    break
+                for n in back["notes"]:
+                    r = rows[n["zid"]]
+                    if n["body"] != r["body"] or n["kind"] != r["kind"]:
+                        res.failures.append(C.Failure(f"{label}: note {n['zid']} body/kind changed: {r['body']!r} -> {n['body']!r}", {"query": q}))
+                        break
+    return None
+
+
 def body(ctx: C.Ctx, proof: C.ProofStatus) -> C.Result:
     import multiprocessing as mp
 
@@ -121,42 +165,8 @@ def body(ctx: C.Ctx, proof: C.ProofStatus) -> C.Result:
     from zorg.service import swog
     from zorg.service.swog._refresh_zoq_file import refresh_zoq_file
 
-    cfg = Z.write_config(ctx.tmp / "cfg.yml")
-    zdir = ctx.tmp / "q"
-    for k in range(ctx.scale(6, 120)):
-        if zdir.exists():
-            shutil.rmtree(zdir)
-        zdir.mkdir(parents=True)
-        G.write_dir(zdir, G.gen_dir(rng, npages=(2, 3), sections=False))
-        Z.clear_engine_cache()
-        with freeze_time(dt.datetime(*TODAY, 12, 0)):
-            rc, _, _ = Z.zorg_main(zdir, "db", "create", config=cfg)
-            if rc != 0:
-                continue
-            url = f"sqlite:///{zdir}/.zorg/zorg.db"
-            rows = {r["zid"]: r for r in G.dump_index(zdir)}
-            for order in ("none", "alpha", "create modify", "type priority", "priority", "modify"):
-                q = f"S note W o | x | ~ | < | > | - O {order} G none"
-                out = swog.execute(zdir, url, q)
-                zoq = zdir / "zoq" / "r.zoq"
-                zoq.parent.mkdir(exist_ok=True)
-                zoq.write_text(f"# {q}\n")
-                refresh_zoq_file(zdir, url, zoq)
-                for label, text in (("swog.execute output under a header", "# results\n\n" + out + "\n"), ("refreshed .zoq page", zoq.read_text() + "\n")):
-                    back = ZC.impl_compile(ctx.tmp / "b", "p.zo", text, TODAY)
-                    res.evaluations += 1
-                    if "exc" in back or back["errors"]:
-                        res.failures.append(C.Failure(f"{label} is not a valid page", {"query": q, "text": text[:2000], "kind": "invalid_page"}))
-                        break
-                    got = sorted(n["zid"] or "" for n in back["notes"])
-                    if got != sorted(rows):
-                        res.failures.append(C.Failure(f"{label}: compiled notes {got[:5]} are not the selected notes {sorted(rows)[:5]}", {"query": q, "text": text[:2000]}))
-                        break
-                    for n in back["notes"]:
-                        r = rows[n["zid"]]
-                        if n["body"] != r["body"] or n["kind"] != r["kind"]:
-                            res.failures.append(C.Failure(f"{label}: note {n['zid']} body/kind changed: {r['body']!r} -> {n['body']!r}", {"query": q}))
-                            break
+    sres, _ = C.parallel_jobs(ctx, ctx.scale(12, 120), one_query_dir)
+    res.merge(sres)
     return res
 
 
